@@ -19,6 +19,12 @@ DRIVERS = {
     'bb_sweep': ['bb_summary'], 'bb_zoom': ['bb_zoom'], 'bw_sum': ['bw_zoom'],
     'fview': ['fileview'], 'asql_loops': ['autosql'], 'asql_tok': ['autosql'],
     'hdr': ['bw_roundtrip', 'bb_summary'], 'info': ['bw_roundtrip'],
+    'value_iter': ['merge_many', 'merge'], 'merge_into': ['merge_many'], 'mv_adjust': ['merge'],
+    'chrom_ids': ['zoom_auto', 'zoom_dir', 'bw_roundtrip'], 'chrom_pipe': ['zoom_dir', 'bw_roundtrip'],
+    'zoom_sizes': ['zoom_dir', 'zoom_auto'], 'zoom_levels': ['zoom_dir'], 'zoom_tail': ['zoom_dir', 'zoom_auto'],
+    'rt_spans': ['bb_query', 'bw_roundtrip'], 'tree_offsets': ['bw_roundtrip', 'bb_query'], 'cache': ['bw_roundtrip', 'bb_query'],
+    'iters': ['bw_roundtrip', 'bb_query'], 'query_glue': ['bw_roundtrip', 'bb_query'], 'index': ['indexer'],
+    'sum_acc': ['bb_summary', 'bb_summary2'], 'summary_io': ['bb_summary', 'bw_roundtrip'],
 }
 
 
